@@ -11,7 +11,7 @@ Definition exporters : list exporter :=
     {| eAddr := [10;0;0;2]; ePort := 2000 |};
     {| eAddr := [32;1;13;184;0;0;0;0;0;0;0;0;0;0;0;1]; ePort := 2000 |};
     {| eAddr := [0;0;0;0;0;0;0;0;0;0;255;255;10;0;0;1]; ePort := 2000 |} ].
-Definition domains : list N := [0; 1; 4294967295].
+Definition domains : list N := [0; 1; 65537; 4294967295].  (* 1 and 65537 agree in their low 16 bits *)
 
 (* scope of a template context *)
 Definition scope := (N * N * N)%type. (* exporter index, version, domain *)
